@@ -142,6 +142,7 @@ def compare_document(path: str, model, rng, label: str) -> tuple[list[dict], dic
         for v in var_names:
             mstate.setdefault(v, float(ic[v]))
         try:
+            model.get_stoichiometries(mstate, t)  # reading the table of coefficients of the imported model changes nothing
             rhs = model.get_right_hand_side(mstate, t)
             a = model.get_args(mstate, t)
         except Exception as e:  # noqa: BLE001
